@@ -149,6 +149,8 @@ fn replay_one(toks: &[&str]) -> String {
             if toks[1] == "K" {
                 let types = if toks[2] == "-" { "" } else { toks[2] };
                 c20::observe_path(types, &c20::parse_coords(toks[3]))
+            } else if toks[1] == "G" {
+                c20::observe_glif(toks[2].parse().unwrap(), toks[3], &c20::parse_coords(toks[4]), toks[5])
             } else if toks[1] == "C" {
                 c20::observe_closed(if toks[2] == "-" { "" } else { toks[2] })
             } else {
